@@ -36,6 +36,9 @@ fn main() {
         let n: usize = args[3].parse().unwrap_or_else(|_| usage());
         deep::child_main(&args[2], n);
     }
+    if args.len() == 7 && args[1] == "run-mt" {
+        run_mt(&args);
+    }
     if args.len() < 8 || args[1] != "run" {
         usage();
     }
@@ -145,4 +148,86 @@ fn main() {
         eprintln!("pvh: cannot write {fp:?}: {e}");
         std::process::exit(70);
     }
+}
+
+/// `pvh run-mt <ID> <tier> <seed> <nshards> <out-prefix>`: all shards of the
+/// workload at once, one thread each (2 MiB stacks), in this one process.  The
+/// monitors are the same and every answer is still judged on its own by the
+/// reference; what differs is that the library is now used from several
+/// threads concurrently, so hidden process-wide state (a static scratch
+/// buffer, a shared cache filled in two steps) is exposed to interleavings.
+/// The step budget is off in this mode (it is process-wide).  Results go to
+/// `<out-prefix>-<shard>.json` (+ `.fp`).
+fn run_mt(args: &[String]) -> ! {
+    let id = args[2].clone();
+    let tier = Tier::parse(&args[3]).unwrap_or_else(|| usage());
+    let seed: u64 = args[4].parse().unwrap_or_else(|_| usage());
+    let nshards: u64 = args[5].parse().unwrap_or_else(|_| usage());
+    let prefix = args[6].clone();
+    let Some(monitor) = mon::lookup(&id) else {
+        eprintln!("pvh: no monitor for {id}");
+        std::process::exit(64);
+    };
+    fw::MT_MODE.store(true, std::sync::atomic::Ordering::Relaxed);
+    fw::install_panic_hook();
+    let scratch_base = std::env::var("PVH_SCRATCH")
+        .map(std::path::PathBuf::from)
+        .unwrap_or_else(|_| std::path::PathBuf::from(format!("{prefix}.scratch")));
+    let mut handles = vec![];
+    for shard in 0..nshards {
+        let id = id.clone();
+        let scratch = scratch_base.join(format!("t{shard}"));
+        let h = std::thread::Builder::new()
+            .name(format!("monitor-{shard}"))
+            .stack_size(2 << 20)
+            .spawn(move || {
+                let mut cx = Cx {
+                    prop: id.clone(),
+                    tier,
+                    seed,
+                    shard,
+                    nshards,
+                    engine: "mt".into(),
+                    rng: rng::Rng::stream(seed, &id, shard, nshards),
+                    ev: Ev::default(),
+                    idx: 0,
+                    replay: None,
+                    describe_only: false,
+                    trace: false,
+                    failures: vec![],
+                    failures_total: 0,
+                    known_counts: Default::default(),
+                    samples: vec![],
+                    max_allocs: 0,
+                    max_bytes: 0,
+                    executed: 0,
+                    start: Instant::now(),
+                    scratch,
+                };
+                monitor(&mut cx);
+                cx
+            })
+            .expect("pvh: cannot start a monitor thread");
+        handles.push(h);
+    }
+    let mut rc = 0;
+    for (shard, h) in handles.into_iter().enumerate() {
+        match h.join() {
+            Ok(cx) => {
+                let out = std::path::PathBuf::from(format!("{prefix}-{shard}.json"));
+                if std::fs::write(&out, cx.to_json()).is_err() {
+                    rc = 70;
+                }
+                let fp = std::path::PathBuf::from(format!("{prefix}-{shard}.json.fp"));
+                if fw::write_fps(&fp, &cx.ev.fps).is_err() {
+                    rc = 70;
+                }
+            }
+            Err(_) => {
+                eprintln!("pvh: monitor thread {shard} panicked outside a case");
+                rc = 101;
+            }
+        }
+    }
+    std::process::exit(rc);
 }
